@@ -151,3 +151,6 @@ def run(ctx):
     ctx.guard("log-state", lambda: run_log_state(ctx, "raft", r"raft::store::MemStore", "MemStore"))
     ctx.guard("log-state", lambda: run_log_state(ctx, "persistent", r"raft::persistent_store::RocksStore", "RocksStore"))
     ctx.guard("snapshot", lambda: run_snapshot(ctx, "persistent", r"raft::persistent_store::RocksStore", "RocksStore"))
+    # what a snapshot / log entry writes must be readable back, field by field, through every nested type
+    from vpr import serdeattr
+    ctx.guard("serde", lambda: serdeattr.check(ctx, "serde", [SM + "CoordinatorState", "varpulis_cluster::raft::ClusterCommand"], 40, cfg="raft"))
